@@ -295,7 +295,6 @@ impl<'a> crate::fdl::FdlApplication for DpMaster<'a> {
             ));
         }
 
-        let mut peripheral_event = None;
         loop {
             let index = match self.state.cycle_state {
                 CycleState::DataExchange(i) => i,
@@ -303,10 +302,7 @@ impl<'a> crate::fdl::FdlApplication for DpMaster<'a> {
                     // On CycleCompleted, return None to let the FDL know where done.  Reset the
                     // cycle state to the beginning for the next time.
                     self.state.cycle_state = CycleState::DataExchange(0);
-                    self.state.last_events = DpEvents {
-                        peripheral: peripheral_event,
-                        ..Default::default()
-                    };
+                    self.state.last_events = DpEvents::default();
                     return None;
                 }
             };
@@ -317,25 +313,25 @@ impl<'a> crate::fdl::FdlApplication for DpMaster<'a> {
                 match res {
                     Ok(tx_res) => {
                         // When this peripheral initiated a transmission, break out of the loop
-                        self.state.last_events = DpEvents {
-                            peripheral: peripheral_event,
-                            ..Default::default()
-                        };
+                        self.state.last_events = DpEvents::default();
                         return Some(tx_res);
                     }
                     Err((tx_returned, event)) => {
                         tx = tx_returned;
 
                         if let Some(event) = event {
-                            // If we get here and peripheral_event were already filled, we would
-                            // end up with the problem that only one event can be reported.
-                            //
-                            // However, lucky for us, this should never occur.  The only peripheral
-                            // event we can receive in transmit_telegram() is the Offline event and
-                            // there can never be a situation where multiple peripherals go offline
-                            // in the same poll cycle.
-                            assert!(peripheral_event.is_none());
-                            peripheral_event = Some((handle, event));
+                            // Only one peripheral event can be reported per poll.  End our turn
+                            // right after this peripheral so the event does not get lost; the
+                            // remaining peripherals are served when we are called the next time.
+                            let cycle_completed = self.increment_cycle_state(index, now);
+                            if cycle_completed {
+                                self.state.cycle_state = CycleState::DataExchange(0);
+                            }
+                            self.state.last_events = DpEvents {
+                                cycle_completed,
+                                peripheral: Some((handle, event)),
+                            };
+                            return None;
                         }
 
                         // When this peripheral was not interested in sending data, move on to the
@@ -347,7 +343,7 @@ impl<'a> crate::fdl::FdlApplication for DpMaster<'a> {
                             self.state.cycle_state = CycleState::DataExchange(0);
                             self.state.last_events = DpEvents {
                                 cycle_completed: true,
-                                peripheral: peripheral_event,
+                                peripheral: None,
                             };
                             return None;
                         }
@@ -359,7 +355,7 @@ impl<'a> crate::fdl::FdlApplication for DpMaster<'a> {
                 self.state.cycle_state = CycleState::DataExchange(0);
                 self.state.last_events = DpEvents {
                     cycle_completed: true,
-                    peripheral: peripheral_event,
+                    peripheral: None,
                 };
                 return None;
             }
